@@ -213,6 +213,8 @@ func ChildMain() {
 	switch os.Getenv("VERIF_CHILD") {
 	case "rangekill":
 		rangeKillChild()
+	case "filestart":
+		fileStartChild()
 	case "chain":
 		chainChild()
 	case "config":
